@@ -595,6 +595,7 @@ func (eng *Engine) verifyFunc(fn *ssa.Function, con *Contract, mode string) *VC 
 	for ri, rt := range fr.rets {
 		st := rt.st
 		env := fr.newEnv(&st)
+		env.at = rt.blk
 		env.result = splitResults(eng.lay, fn.Signature.Results(), rt.vals)
 		if fn.Signature.Results().Len() == 1 {
 			env.result = []tval{{T: fn.Signature.Results().At(0).Type(), C: rt.vals}}
